@@ -643,6 +643,10 @@ func (g *TransferGen) Run(nOps int) {
 		}
 		g.tokenOracles()
 	}
+	// last, because it leaves a duplicated token behind (known finding)
+	if g.script == 2 && !g.relay {
+		g.RunRelayEdit()
+	}
 }
 
 var _ = sdk.AccAddress{}
@@ -834,6 +838,72 @@ func (g *TransferGen) RunMtRefunds() {
 			g.stat("script.mt.all-home")
 		}
 	}
+	g.tokenOracles()
+}
+
+// RunRelayEdit: the relay chain named by a packet is not covered by the packet commitment. A
+// token sent directly from A to C is delivered to C (voucher minted, success acknowledgement);
+// the same committed packet is then presented to a third chain B with the relay field set to B.
+// B has no routing rule for it and answers with an error acknowledgement, which A — shown the
+// packet with relay = B — verifies against B and processes as a failed transfer: the sender is
+// refunded although the voucher exists on C.
+func (g *TransferGen) RunRelayEdit() {
+	w := g.w
+	if len(w.Chains) < 3 {
+		return
+	}
+	w.Scenario = "relay-edit-after-delivery"
+	defer func() { w.Scenario = "" }()
+	// chain 1 is connected with every other chain in each topology of this stream
+	a, c, b := 1, 0, 2
+	A, C, B := g.chain(a), g.chain(c), g.chain(b)
+	if w.ClientLatest(B, A.ChainName) == 0 || w.ClientLatest(A, B.ChainName) == 0 || w.ClientLatest(C, A.ChainName) == 0 {
+		return
+	}
+	var t *tpkt
+	if g.mt {
+		class := w.MtIssue(A, 0)
+		if class == "" {
+			return
+		}
+		id, res := w.MtMint(A, 0, class, "", 9, w.Acct(a, 1).String())
+		g.mtAfterMint(A, class, id, 9, res)
+		if res.Code != 0 {
+			return
+		}
+		t = g.mtXfer(a, 1, class, id, w.Acct(c, 1).String(), C.ChainName, "", 4)
+	} else {
+		class, id := "relayedit", "tok1"
+		if w.NftIssue(A, 0, class, false).Code != 0 {
+			return
+		}
+		g.nftAfterMint(A, class, id, w.NftMint(A, 0, class, id, "uri", w.Acct(a, 1).String()))
+		t = g.nftXfer(a, 1, class, id, w.Acct(c, 1).String(), C.ChainName, "")
+	}
+	if t == nil {
+		return
+	}
+	p := t.p
+	h := w.Update(C, A)
+	ps := ProofSpec{Kind: "honest", Chain: A.ChainName, Height: h, Key: "commit", Src: p.SourceChain, Dst: p.DestinationChain, Seq: p.Sequence}
+	if res := g.recvWithOracles(C, 0, p, t.tok, ps, h); res.Code != 0 {
+		return
+	}
+	g.tokenOracles()
+	p2 := p
+	p2.RelayChain = B.ChainName
+	h = w.Update(B, A)
+	ps = ProofSpec{Kind: "honest", Chain: A.ChainName, Height: h, Key: "commit", Src: p.SourceChain, Dst: p.DestinationChain, Seq: p.Sequence}
+	res := g.recvWithOracles(B, 0, p2, t.tok, ps, h)
+	g.stat("relayedit.recv-on-third-chain." + ErrClass(res.Codespace, res.Code))
+	ackB := writtenAck(res)
+	if res.Code != 0 || ackB == nil {
+		return
+	}
+	h = w.Update(A, B)
+	ps = ProofSpec{Kind: "honest", Chain: B.ChainName, Height: h, Key: "ack", Src: p.SourceChain, Dst: p.DestinationChain, Seq: p.Sequence}
+	res = g.ackWithOracles(A, 0, p2, t.tok, ackB, ps, h, true)
+	g.stat("relayedit.ack-on-source." + ErrClass(res.Codespace, res.Code))
 	g.tokenOracles()
 }
 
